@@ -107,6 +107,16 @@ POSITIONS = [
     ("cmp-chain-ordering", "print({X} < 3 == 1)", set()),
     ("cmp-chain-condition", "if ivar == 1 == {X} {\n\tprint(1)\n}", set()),
     ("cmp-chain-three", "bvar = {X} == 2 == 3 == 4", set()),
+    # stacked negations (round 13: C06-F let pairs of ! cancel BEFORE the operand's type was checked, so `!!5` had type int): an operand
+    # that is not a bool is rejected under any number of !; for a bool operand the rows are left open (the grammar has no stacked !)
+    ("not-not-value", "zz := !!{X}\nprint(zz)", set()),
+    ("not-not-not", "print(!!!{X})", set()),
+    ("not-not-four", "zz := !!!!{X}\nprint(zz)", set()),
+    ("not-not-int-operand", "print(!!{X} + 1)", set()),
+    ("not-not-str-operand", 'print(!!{X} + "d")', set()),
+    ("not-not-arg", "print(ifn(!!{X}))", set()),
+    ("not-not-index", "print(aivar[!!{X}])", set()),
+    ("not-not-case", "switch ivar {\ncase !!{X}:\n\tprint(1)\n}", set()),
     ("compound-string", "svar += {X}", {"string"}),
     ("compound-string-minus", "svar -= {X}", set()),
     ("compound-bool", "bvar += {X}", set()),
@@ -219,6 +229,8 @@ def table(full=True):
                         expect = False if ty == "none" else None
                     elif name == "expr-stmt-call":
                         expect = True if (e.endswith(")") and "fn(" in e) else None
+                    elif name in ("not-not-value", "not-not-not", "not-not-four") and ty == "bool":
+                        expect = None
                     else:
                         expect = ty in ok
                     if e.startswith("(") and ty in ("none", "multi"):
